@@ -57,8 +57,12 @@ class ReferenceValueMap(ABC):
         :param key: The key to verify.
         :param value: The value to verify.
         """
-        if not isinstance(key, (int, np.integer)) or key < 0:
-            raise KeyError("Key must be an positive integer")
+        if (
+            not isinstance(key, (int, np.integer))
+            or key < 0
+            or key > np.iinfo(np.uint32).max
+        ):
+            raise KeyError("Key must be an positive integer (unsigned 32-bit).")
         if not isinstance(value, str):
             raise TypeError("Value must be a string")
 
